@@ -39,7 +39,17 @@ def run_worker(job, wd, name, seed, cwd_kind, cwd_path=None):
         for s in set(v for v in job["systems"].values() if v):
             (cw / s).mkdir(exist_ok=True)
             entries.append(s)
-    job = dict(job, out=str(jd / "events.ndjson"), cwd_kind=cwd_kind, cwd_entries=entries)
+    # every process works on its own copy of the data directories (histories may rewrite the files at a path)
+    import shutil
+    private, originals = {}, {}
+    for c, sp in job["datasets"].items():
+        src = Path(sp).parent
+        for kind, table in (("data", private), ("orig", originals)):
+            dst = jd / f"{kind}{c}"
+            if not dst.exists():
+                shutil.copytree(src, dst)
+            table[c] = str(dst / Path(sp).name) if kind == "data" else str(dst)
+    job = dict(job, datasets=private, originals=originals, out=str(jd / "events.ndjson"), cwd_kind=cwd_kind, cwd_entries=entries)
     (jd / "job.json").write_text(json.dumps(job))
     env = dict(os.environ)
     if seed == "random":
@@ -70,6 +80,9 @@ def main(ctx, replay=None):
         raise MachineryError("too few life-cycle behaviours from the simulator")
     # one behaviour with the command line in every tier
     behaviours.append(({"seed": "1", "cwd": "dir_named_like_system"}, [["CliRun", "A"], ["CliRun", "A"]]))
+    # the files at a path are replaced between two calculations: the second one is the calculation of the NEW content
+    behaviours.append(({"seed": "2", "cwd": "junk"}, [["Construct", 1, "A"], ["Read", 1, "modulus_adiabatic"], ["Rewrite", "A", "C"], ["Construct", 2, "A"],
+                                                     ["Read", 2, "modulus_adiabatic"], ["Read", 1, "modulus_isothermal"], ["WriteOutput", 2]]))
     behaviours.append(({"seed": "random", "cwd": "junk"}, [["CliRun", "A"]]))
     # two DIFFERENT calculations interleaved in one process, both orders (simulated histories may lack this by chance)
     behaviours.append(({"seed": "2", "cwd": "empty"}, [["Construct", 1, "A"], ["Construct", 2, "B"], ["Read", 2, "modulus_adiabatic"], ["Read", 1, "modulus_isothermal"],
@@ -137,8 +150,12 @@ def main(ctx, replay=None):
         if not ok:
             bad = trace[consumed]
             case = next((c for a, b, c in meta if a <= consumed < b), {})
-            ctx.violation(f"observation {bad.get('q', bad.get('ev'))} of calculator {bad.get('id')} differs from the fresh reference run "
-                          f"(or the shared module state changed) in the process with history {case.get('history')} under {case.get('env')}",
+            if str(bad.get("wd", "start")) != "start":
+                what = f"after {bad.get('ev')} ({bad.get('q', bad.get('cfg', ''))}) the process is in another working directory ({bad['wd'][:80]})"
+            else:
+                what = (f"observation {bad.get('q', bad.get('ev'))} of calculator {bad.get('id')} differs from the fresh reference run "
+                        f"(or the shared module state changed)")
+            ctx.violation(f"{what} in the process with history {case.get('history')} under {case.get('env')}",
                           {"event": bad, **case}, {"clause": "trace", "q": str(bad.get("q", "")).split(":")[0], "ev": bad.get("ev")})
         ctx.cov["processes"] = len(results) + 1
     finally:
